@@ -58,6 +58,15 @@ class PrefixCtor(Contract):
     types = {"base": [("int",)], "exponent": [("int",), ("float",), ("dec",)], "name": [("none",), ("str",)], "symbol": [("none",), ("str",)]}
     ret = T_PFX
 
+    def _anonymous(self, a):
+        return isinstance(a.name, VNone) and isinstance(a.symbol, VNone)
+
+    def inv_for(self, a):
+        return ("I_P",) if self._anonymous(a) else self.inv
+
+    def modifies_for(self, a):
+        return ("new:Prefix", "Prefix._known") if self._anonymous(a) else self.modifies
+
     def _target(self, c, a):
         from pyvc.ops import to_num
         e = to_num(a.exponent).val
@@ -101,9 +110,10 @@ class PrefixCtor(Contract):
         for arg, reg, fld in ((a.name, "Prefix._by_name", "name"), (a.symbol, "Prefix._by_symbol", "symbol")):
             R, R0 = c.g(reg), o.g(reg)
             if isinstance(arg, VNone):
-                yield reg + "-unchanged", table_unchanged(c, reg)
-                yield fld + "-of-old-prefixes-unchanged", z3.ForAll([p], z3.Implies(
-                    z3.And(o.alivez("Prefix", p), o.fz("Prefix", p, "_initialized")), c.fz("Prefix", p, fld) == o.fz("Prefix", p, fld)))
+                if not self._anonymous(a):
+                    yield reg + "-unchanged", table_unchanged(c, reg)
+                    yield fld + "-of-old-prefixes-unchanged", z3.ForAll([p], z3.Implies(
+                        z3.And(o.alivez("Prefix", p), o.fz("Prefix", p, "_initialized")), c.fz("Prefix", p, fld) == o.fz("Prefix", p, fld)))
                 continue
             t = z3.Length(arg.z) > 0
             yield fld + "-bound-and-reported", z3.Implies(t, z3.And(z3.Select(R.dom, arg.z), z3.Select(R.val, arg.z) == r.ref,
